@@ -61,6 +61,10 @@ def build_source(src, holder):
         holder["lines"] = lines
         return cb.Environments.from_supervised(cb.CsvSource(cb.ListSource(lines), has_header=True), label_col=kw["label_col"],
                                                label_type=kw.get("label_type"), take=kw.get("take"))
+    if kind == "supervised_arff":
+        lines = list(kw["lines"])
+        holder["lines"] = lines
+        return cb.Environments.from_supervised(cb.ArffSource(cb.ListSource(lines)), label_col="kind", label_type="c")
     if kind == "supervised_libsvm":
         lines = list(kw["lines"])
         holder["lines"] = lines
@@ -172,7 +176,7 @@ def snapshot_inputs(holder):
 # ----------------------------------------------------------------------------- spec generation
 def gen_src(rng):
     k = weighted(rng, [("linear", 3), ("neighbors", 1), ("bandit", 2), ("tagged", 2), ("lambda", 2), ("supervised_xy", 3),
-                       ("supervised_csv", 2), ("supervised_libsvm", 1), ("result", 1)])
+                       ("supervised_csv", 2), ("supervised_libsvm", 1), ("result", 1), ("supervised_arff", 1.5)])
     n = weighted(rng, [(0, 0.3), (1, 1), (3, 2), (8, 3), (26, 2), (40, 1), (80, 0.5)])
     if k == "linear":
         return ["linear", {"n_interactions": n, "n_actions": 2 + rng.randrange(3), "n_context_features": rng.randrange(3), "n_action_features": rng.randrange(3), "seed": rng.randrange(1, 30)}]
@@ -198,6 +202,14 @@ def gen_src(rng):
         lines = ["f1,f2,lab"] + [f"{rng.randrange(9)},{round(rng.random(), 2)},{rng.choice(['x', 'y', 'z'])}" for _ in range(m)]
         return ["supervised_csv", {"lines": lines, "label_col": rng.choice(["lab", 2]), "label_type": "c",
                                    "take": weighted(rng, [(None, 3), (max(1, m // 2), 1)])}]
+    if k == "supervised_arff":
+        # a dense ARFF whose data lines use different quoting styles (the line reader adapts while it reads)
+        m = max(2, min(n, 12))
+        names = ["'alpha '", "beta", "'ga mma'", '"it\'s"', "\"dq\"", "'x,y'", "plain", "' lead'"]
+        lines = ["@relation r", "@attribute name string", "@attribute size numeric", "@attribute kind {A,B,C}", "@data"]
+        for _ in range(m):
+            lines.append(f"{rng.choice(names)},{rng.choice([1, 2.5, 3, 10])},{rng.choice(['A', 'B', 'C'])}")
+        return ["supervised_arff", {"lines": lines}]
     if k == "supervised_libsvm":
         m = max(1, n)
         lines = [f"{rng.randrange(3)} " + " ".join(f"{j}:{rng.randrange(1, 5)}" for j in sorted(rng.sample(range(1, 6), 1 + rng.randrange(3)))) for _ in range(m)]
@@ -208,7 +220,7 @@ def gen_src(rng):
 def gen_ops(rng, src):
     kind = src[0]
     ops = []
-    has_vec = kind in ("linear", "neighbors", "lambda", "supervised_xy", "supervised_csv", "result")
+    has_vec = kind in ("linear", "neighbors", "lambda", "supervised_xy", "supervised_csv", "result", "supervised_arff")
     sparse = kind == "supervised_libsvm"
     logged = kind == "result"
     batched = False
